@@ -336,6 +336,21 @@ def check_C09(tier):
         if not valid and (p.returncode == 0 or produced):
             res.add_failures([{"fail": True, "case": it["name"], "variant": "cargo_build", "sig": "cargo_build invalid",
                                "detail": "cargo_build exit %d and output %s for a rejected definition" % (p.returncode, produced)}], "cargo_build")
+        # the helper that writes into the source tree (beside the input)
+        nbin += 1
+        sd = os.path.join(res.wd, "tosrc-" + it["name"])
+        os.makedirs(sd, exist_ok=True)
+        fn2 = os.path.join(sd, "org.example.x.varlink")
+        open(fn2, "w").write(it["text"])
+        p = subprocess.run([vh, "cargobuild", "--tosource", fn2], stdout=subprocess.PIPE, stderr=subprocess.PIPE, text=True)
+        outp = os.path.join(sd, "org_example_x.rs")
+        has_code = os.path.exists(outp) and os.path.getsize(outp) > 0
+        if valid and obs.get(it["name"], {}).get("generate", {}).get("ok") and (p.returncode != 0 or not has_code):
+            res.add_failures([{"fail": True, "case": it["name"], "variant": "cargo_build_tosource", "sig": "cargo_build_tosource valid",
+                               "detail": "cargo_build_tosource failed on a valid definition (exit %d): %s" % (p.returncode, p.stderr[-300:])}], "cargo_build")
+        if not valid and (p.returncode == 0 or has_code or not p.stderr.strip()):
+            res.add_failures([{"fail": True, "case": it["name"], "variant": "cargo_build_tosource", "sig": "cargo_build_tosource invalid",
+                               "detail": "cargo_build_tosource exit %d, code written: %s, diagnostic: %r for a rejected definition" % (p.returncode, has_code, p.stderr[-200:])}], "cargo_build")
     res.evaluations += nbin
     res.extra["rejected_texts"] = len(bad_items)
     res.nontrivial = {it["text"] for it in items} | {it["text"] for it in bad_items}
